@@ -54,7 +54,7 @@ Definition chunk_end : bytes := [x30; x0d; x0a; x0d; x0a].
 Definition should_make_pipe (rq rs : head) : bool :=
   (h_status rs =? 101) || ((h_status rs =? 200) && meth_eqb (h_meth rq) MConnect).
 
-(* Http1Connection.mark_done (+ the Http1Server override); rd = the state function applied to DataReceived *)
+(* Http1Connection.mark_done (+ the Http1Server and Http1Client overrides); rd = the state function applied to DataReceived *)
 Definition mark_done_with (rd : h1conn -> kres) (server isreq : bool) (c : h1conn) : kres :=
   let c := if isreq then set_c_reqdone true c else set_c_respdone true c in
   let r :=
@@ -75,7 +75,9 @@ Definition mark_done_with (rd : h1conn -> kres) (server isreq : bool) (c : h1con
       end
     else (c, []) in
   let c2 := fst r in
-  if server && c_reqdone c2 && negb (c_respdone c2) then (set_c_state HWait c2, snd r) else r.
+  if server && c_reqdone c2 && negb (c_respdone c2) then (set_c_state HWait c2, snd r)
+  else if negb server && c_respdone c2 && negb (c_reqdone c2) then (set_c_state HWait c2, snd r)
+  else r.
 
 Definition recv_err (server : bool) (c : h1conn) : kcmd :=
   KRecv (sid_of c) (if server then EReqErr (Some 400) else ERespErr (Some 502)).
